@@ -4,7 +4,7 @@ usage: tools/seedall.py import      (copy from /tmp/seed)
        tools/seedall.py run [ids..] (confirm + run the registered quick check(s); writes seeded/<id>/meta.json 'verification')"""
 import sys, os, json, glob, shutil, subprocess
 V = os.path.dirname(os.path.dirname(os.path.abspath(__file__)))
-EXTRA = {'C09-10B': ['C09', 'C01', 'C16'], 'C02-10B': ['C02', 'C14', 'C16'], 'C04-10A': ['C04', 'C13', 'C05'], 'C15-10B': ['C15', 'C16'], 'C16-10B': ['C16', 'C14'], 'C01-2A': ['C01', 'C15', 'C04'], 'C01-2B': ['C01', 'C16'], 'C03-2A': ['C03', 'C09'], 'C03-2B': ['C03', 'C06'], 'C05-2B': ['C05', 'C01'], 'C08-2A': ['C08', 'C07'],
+EXTRA = {'C03-10B': ['C03', 'C06', 'C01'], 'C16-10A': ['C16', 'C02'], 'C09-10B': ['C09', 'C01', 'C16'], 'C02-10B': ['C02', 'C14', 'C16'], 'C04-10A': ['C04', 'C13', 'C05'], 'C15-10B': ['C15', 'C16'], 'C16-10B': ['C16', 'C14'], 'C01-2A': ['C01', 'C15', 'C04'], 'C01-2B': ['C01', 'C16'], 'C03-2A': ['C03', 'C09'], 'C03-2B': ['C03', 'C06'], 'C05-2B': ['C05', 'C01'], 'C08-2A': ['C08', 'C07'],
          'C08-2B': ['C08', 'C11', 'C16', 'C01'], 'C07-2B': ['C07', 'C13'], 'C02-2A': ['C02', 'C16'], 'C02-2B': ['C02', 'C09'], 'C16-2A': ['C16', 'C15'], 'C16-2B': ['C16', 'C14', 'C01'],
          'C03-B': ['C03', 'C10', 'C16'], 'C02-B': ['C02', 'C05', 'C06'], 'C02-A': ['C02', 'C01'], 'C08-B': ['C08', 'C07'], 'C08-A': ['C08', 'C07'],
          'C10-A': ['C10', 'C16'], 'C06-B': ['C06'], 'C04-A': ['C04', 'C15'], 'C16-A': ['C16', 'C10'], 'C01-A': ['C01', 'C14'],
